@@ -345,12 +345,17 @@ Qed.
 
 Lemma ok_recv_finished : okA (recv_finished src c).
 Proof. unfold recv_finished. pose proof ok_upreq_reset_stream. pose proof ok_clean_up. ok_auto. Qed.
+Lemma ok_after_append h err e : okA (after_append src c h err e).
+Proof.
+  unfold after_append, end_stream. pose proof ok_clean_stream. pose proof ok_ds_reset_stream.
+  destruct (h && negb (append_error_continues src) && err); [assumption|]. ok_auto.
+Qed.
 Lemma ok_down_append_headers e r : okA (down_append_headers src c e r).
-Proof. unfold down_append_headers, end_stream. pose proof ok_clean_stream. ok_auto. Qed.
+Proof. unfold down_append_headers. pose proof (ok_after_append true (c_snd_err_hdr c) e). ok_auto. Qed.
 Lemma ok_down_append_data e w : okA (down_append_data src c e w).
-Proof. unfold down_append_data, end_stream. pose proof ok_clean_stream. ok_auto. Qed.
+Proof. unfold down_append_data. pose proof (ok_after_append false (c_snd_err_data c) e). ok_auto. Qed.
 Lemma ok_down_append_trailers : okA (down_append_trailers src c).
-Proof. unfold down_append_trailers, end_stream. pose proof ok_clean_stream. ok_auto. Qed.
+Proof. unfold down_append_trailers. pose proof (ok_after_append false (c_snd_err_trl c) true). ok_auto. Qed.
 
 Lemma ok_on_upstream_headers r : okA (on_upstream_headers src c r).
 Proof.
